@@ -100,8 +100,13 @@ def J(id, entry, props, enforce=None, replace=(), loops=False, unwind=None, unwi
 R = ['C17', 'C02']
 SHL24 = (r'arithmetic overflow on signed shl in \(signed int\)mem\[\(signed long int\)3\] << 24',
          'C-vs-C++ difference: uint8_t promoted to int and shifted by 24 may set the sign bit; undefined in C11, defined in C++11 and later (CWG 1457: result representable in unsigned int). Shift-distance check stays enabled.')
-for lo, hi in [(1, 32), (33, 64), (65, 96), (97, 128), (129, 160), (161, 192), (193, 224), (225, 255)]:
-    J('fastdiv.contract.y%d_%d' % (lo, hi), 'h_enf_fastdiv', ['C17', 'C08'], enforce='fastdiv', defines=DEFS + ['-DFD_Y_LO=%d' % lo, '-DFD_Y_HI=%d' % hi], timeout=1500, cost=8)
+# fastdiv(x, y) == x / y for x < L*IO: one job per divisor (a 64-bit multiply by a table constant per job; a symbolic divisor does not
+# finish on any back end).  Quick tier: a spread of divisors incl. the extremes; thorough tier: all 255.  On every run the real compiled
+# function is additionally enumerated exhaustively over the whole contract domain by the co-simulation driver (reported as enumeration).
+FD_QUICK = (1, 2, 7, 85, 127, 128, 129, 254, 255)
+for y in range(1, 256):
+    J('fastdiv.contract.y%d' % y, 'h_enf_fastdiv', ['C17', 'C08'], enforce='fastdiv', defines=DEFS + ['-DFD_Y_LO=%d' % y, '-DFD_Y_HI=%d' % y], timeout=600, cost=3,
+      tier=None if y in FD_QUICK else 'thorough', no_vacuity=y not in FD_QUICK)
 for n in ['16', '24', '32']:
     J('mem_get_le%s.contract' % n, 'h_enf_mem_get_le' + n, ['C17', 'C02', 'C05'], enforce='mem_get_le' + n)
 J('rabs_desc_read.contract', 'h_enf_rabs_desc_read', ['C17', 'C02'], enforce='rabs_desc_read')
